@@ -1,7 +1,355 @@
-//! C20 — correspondence harness (stub; see /verif/AGENT_GUIDE.md).
+//! C20, node-level stream: a real node (SharedBuilder + chain service) is fed blocks carrying
+//! proposal ids (own and in uncles); after every main-chain change, truncation and restart the
+//! view in `Shared::snapshot().proposals()` is compared with the model and with a direct union over
+//! the main chain kept by the harness; commitments of real transactions are offered at random
+//! moments (around the window edges) and the block verdict is compared with the window.
+//!
+//! Protocol (model side: lean/CkbVerif/Driver/C20.lean):
+//!   cfg <close> <far>              -> ok <close> <far>
+//!   nboot                          -> set=<ids> gap=<ids>        (first start, genesis only)
+//!   nswitch <common> <ids>*        -> set=.. gap=..              (what verify_block / truncate did)
+//!   nrestart                       -> set=.. gap=..              (stop, start on the same directory)
+//!   verify <id>                    -> ok | invalid               (block tip+1 committing tx <id>)
+//! ids 1..=N_TX are the proposal short ids of real transactions spending genesis cells; ids >= 100
+//! are arbitrary short ids.
 use crate::common::*;
+use crate::node::*;
+use ckb_types::core::{BlockView, TransactionView};
+use ckb_types::packed::{Byte32, ProposalShortId};
+use std::collections::{BTreeSet, HashMap};
 
-pub fn run(_opts: &Opts) {
-    eprintln!("C20: harness not implemented in this crate");
-    std::process::exit(2);
+const N_TX: u64 = 12;
+
+fn show_set(s: &BTreeSet<u64>) -> String {
+    if s.is_empty() { "-".into() } else { s.iter().map(|x| x.to_string()).collect::<Vec<_>>().join(",") }
+}
+
+fn show_list(ids: &[u64]) -> String {
+    if ids.is_empty() { "-".into() } else { ids.iter().map(|x| x.to_string()).collect::<Vec<_>>().join(",") }
+}
+
+struct Blk {
+    hash: Byte32,
+    /// union proposal ids (own + uncles')
+    ids: Vec<u64>,
+    /// committed tx ids
+    committed: Vec<u64>,
+}
+
+struct Sim {
+    cfg: NodeCfg,
+    node: Option<Node>,
+    builder: ChainBuilder,
+    txs: Vec<TransactionView>,
+    idmap: HashMap<ProposalShortId, u64>,
+    chain: Vec<Blk>,
+    salt: u64,
+}
+
+impl Sim {
+    fn pid(&self, id: u64) -> ProposalShortId {
+        if id >= 1 && id <= N_TX {
+            self.txs[id as usize - 1].proposal_short_id()
+        } else {
+            let mut b = [0u8; 10];
+            b[..8].copy_from_slice(&id.to_le_bytes());
+            b[9] = 0xEE;
+            ProposalShortId::new(b)
+        }
+    }
+    fn window(&self) -> (BTreeSet<u64>, BTreeSet<u64>) {
+        let (close, far) = self.cfg.window;
+        let next = self.chain.len() as u64;
+        let (mut set, mut gap) = (BTreeSet::new(), BTreeSet::new());
+        for n in 1..next {
+            let d = next - n;
+            if d >= close && d <= far {
+                set.extend(self.chain[n as usize].ids.iter().copied());
+            } else if d < close {
+                gap.extend(self.chain[n as usize].ids.iter().copied());
+            }
+        }
+        (set, gap)
+    }
+    fn view_line(&self, out: &mut Out, what: &str) -> String {
+        let node = self.node.as_ref().unwrap();
+        let snap = node.shared.snapshot();
+        let p = snap.proposals();
+        let conv = |s: &std::collections::HashSet<ProposalShortId>| -> BTreeSet<u64> {
+            s.iter().map(|x| self.idmap.get(x).copied().unwrap_or(u64::MAX)).collect()
+        };
+        let (set, gap) = (conv(p.set()), conv(p.gap()));
+        let (wset, wgap) = self.window();
+        if set != wset {
+            out.oracle_fail("node-set-not-window", &format!("{what}: snapshot set={} window={} tip={}", show_set(&set), show_set(&wset), self.chain.len() - 1));
+        }
+        if gap != wgap {
+            out.oracle_fail("node-gap-not-window", &format!("{what}: snapshot gap={} window={} tip={}", show_set(&gap), show_set(&wgap), self.chain.len() - 1));
+        }
+        if node.tip_hash() != self.chain.last().unwrap().hash {
+            out.oracle_fail("node-tip-unexpected", what);
+        }
+        format!("set={} gap={}", show_set(&set), show_set(&gap))
+    }
+    fn committed_on_main(&self) -> BTreeSet<u64> {
+        self.chain.iter().flat_map(|b| b.committed.iter().copied()).collect()
+    }
+    /// build one block on `parent` with the given own ids, optionally an uncle (a sibling of the
+    /// parent) carrying `uncle_ids`, optionally committing tx `commit`
+    fn build(&mut self, parent: &Byte32, ids: &[u64], uncle_ids: Option<&[u64]>, commit: Option<u64>) -> (BlockView, Vec<u64>) {
+        self.salt += 1;
+        let mut union: Vec<u64> = ids.to_vec();
+        let mut uncles = vec![];
+        if let Some(uids) = uncle_ids {
+            let p = self.builder.block(parent).clone();
+            if p.number() >= 1 {
+                self.salt += 1;
+                let spec = BlockSpec { proposals: uids.iter().map(|i| self.pid(*i)).collect(), salt: 1_000_000 + self.salt, ..Default::default() };
+                let u = self.builder.build(&p.parent_hash(), &spec);
+                uncles.push(u.as_uncle());
+                union.extend(uids.iter().copied());
+            }
+        }
+        let spec = BlockSpec {
+            proposals: ids.iter().map(|i| self.pid(*i)).collect(),
+            uncles,
+            txs: commit.map(|i| vec![self.txs[i as usize - 1].clone()]).unwrap_or_default(),
+            salt: self.salt,
+            ..Default::default()
+        };
+        (self.builder.build(parent, &spec), union)
+    }
+}
+
+fn gen_ids(rng: &mut Rng) -> Vec<u64> {
+    let k = match rng.below(8) {
+        0 | 1 => 0,
+        2..=5 => 1,
+        6 => 2,
+        _ => 3,
+    };
+    let mut v: Vec<u64> = vec![];
+    for _ in 0..k {
+        let id = if rng.chance(3, 4) { rng.range(1, N_TX) } else { 100 + rng.below(6) };
+        if !v.contains(&id) {
+            v.push(id);
+        }
+    }
+    v
+}
+
+fn node_case(out: &mut Out, rng: &mut Rng, base: &std::path::Path, case_no: usize, n_ops: usize) {
+    let wins: [(u64, u64); 5] = [(2, 10), (1, 2), (2, 4), (1, 1), (3, 5)];
+    let window = *rng.pick(&wins);
+    let cfg = NodeCfg { epoch_len: 1000, window, genesis_cells: N_TX, with_pool: false, ..Default::default() };
+    let consensus = make_consensus(&cfg);
+    let dir = base.join(format!("case{case_no}"));
+    let node = Node::start(&dir.join("node"), consensus.clone(), &cfg);
+    let builder = ChainBuilder::new(consensus.clone(), &dir.join("builder"));
+    let cells = genesis_cells(&consensus);
+    let txs: Vec<TransactionView> = (0..N_TX as usize).map(|i| spend_tx(&cells[i..i + 1], 1, 1000, i as u64)).collect();
+    let mut sim = Sim { cfg: cfg.clone(), node: Some(node), builder, txs, idmap: HashMap::new(), chain: vec![], salt: 0 };
+    for i in (1..=N_TX).chain(100..106) {
+        let p = sim.pid(i);
+        sim.idmap.insert(p, i);
+    }
+    sim.chain.push(Blk { hash: consensus.genesis_hash(), ids: vec![], committed: vec![] });
+    out.begin_case(&format!("node w={},{}", window.0, window.1));
+    out.op(&format!("cfg {} {}", window.0, window.1), &format!("ok {} {}", window.0, window.1));
+    let l = sim.view_line(out, "nboot");
+    out.op("nboot", &l);
+    let (mut reorgs, mut restarts, mut commits_ok, mut commits_bad, mut uncles) = (0, 0, 0, 0, 0);
+    for _ in 0..n_ops {
+        let tip = sim.chain.len() as u64 - 1;
+        match rng.below(20) {
+            0..=8 => {
+                // extend, sometimes with an uncle
+                let ids = gen_ids(rng);
+                let uids = if rng.chance(1, 4) { Some(gen_ids(rng)) } else { None };
+                let parent = sim.chain.last().unwrap().hash.clone();
+                let (blk, union) = sim.build(&parent, &ids, uids.as_deref(), None);
+                if blk.uncles().hashes().len() > 0 {
+                    uncles += 1;
+                }
+                let r = sim.node.as_ref().unwrap().process(&blk);
+                if r != Ok(true) {
+                    out.oracle_fail("node-rejects-valid-block", &format!("extend at {}: {:?}", tip + 1, r));
+                    break;
+                }
+                sim.chain.push(Blk { hash: blk.hash(), ids: union.clone(), committed: vec![] });
+                let op = format!("nswitch {tip} {}", show_list(&union));
+                let l = sim.view_line(out, &op);
+                out.op(&op, &l);
+                out.count("node-extend");
+            }
+            9..=12 => {
+                // reorganisation to a longer branch from `common`
+                if tip == 0 {
+                    continue;
+                }
+                let (close, far) = window;
+                let depth = match rng.below(5) {
+                    0 => 1,
+                    1 => rng.range(1, close + 1),
+                    2 => rng.range(close, far + 1),
+                    3 => far + rng.below(3),
+                    _ => rng.range(1, tip),
+                }
+                .min(tip)
+                .max(1);
+                let common = tip - depth;
+                let len = depth + rng.range(1, 2);
+                let mut parent = sim.chain[common as usize].hash.clone();
+                let mut branch: Vec<(Byte32, Vec<u64>)> = vec![];
+                let mut switched = false;
+                let mut failed = false;
+                for k in 0..len {
+                    let ids = gen_ids(rng);
+                    // uncles only where the parent of the uncle is on the new branch or the common part
+                    let uids = if k >= 1 && rng.chance(1, 5) { Some(gen_ids(rng)) } else { None };
+                    let (blk, union) = sim.build(&parent, &ids, uids.as_deref(), None);
+                    let r = sim.node.as_ref().unwrap().process(&blk);
+                    if r != Ok(true) {
+                        out.oracle_fail("node-rejects-valid-block", &format!("branch block {} from common {common}: {:?}", k + 1, r));
+                        failed = true;
+                        break;
+                    }
+                    parent = blk.hash();
+                    branch.push((blk.hash(), union));
+                    let is_tip = sim.node.as_ref().unwrap().tip_hash() == blk.hash();
+                    if is_tip && !switched {
+                        // the whole branch so far was attached in one step
+                        switched = true;
+                        sim.chain.truncate(common as usize + 1);
+                        let mut op = format!("nswitch {common}");
+                        for (hash, ids) in &branch {
+                            sim.chain.push(Blk { hash: hash.clone(), ids: ids.clone(), committed: vec![] });
+                            op.push(' ');
+                            op.push_str(&show_list(ids));
+                        }
+                        let l = sim.view_line(out, &op);
+                        out.op(&op, &l);
+                    } else if is_tip {
+                        let t = sim.chain.len() as u64 - 1;
+                        let (hash, ids) = branch.last().unwrap().clone();
+                        sim.chain.push(Blk { hash, ids: ids.clone(), committed: vec![] });
+                        let op = format!("nswitch {t} {}", show_list(&ids));
+                        let l = sim.view_line(out, &op);
+                        out.op(&op, &l);
+                    } else if switched {
+                        out.oracle_fail("node-tip-unexpected", "branch block after the switch did not become tip");
+                    }
+                }
+                if failed {
+                    break;
+                }
+                if !switched {
+                    out.oracle_fail("node-no-reorg-to-longer-branch", &format!("common {common} len {len} tip {tip}"));
+                    break;
+                }
+                reorgs += 1;
+                out.count("node-reorg");
+                if depth > far {
+                    out.count("node-reorg-deeper-than-window");
+                }
+            }
+            13 | 14 => {
+                // truncate
+                if tip == 0 {
+                    continue;
+                }
+                let target = if rng.chance(1, 5) { 0 } else { rng.range(0, tip - 1) };
+                let hash = sim.chain[target as usize].hash.clone();
+                if let Err(e) = sim.node.as_ref().unwrap().controller().truncate(hash) {
+                    out.oracle_fail("node-truncate-fails", &format!("{e}"));
+                    break;
+                }
+                sim.chain.truncate(target as usize + 1);
+                let op = format!("nswitch {target}");
+                let l = sim.view_line(out, &op);
+                out.op(&op, &l);
+                out.count("node-truncate");
+            }
+            15 | 16 => {
+                // restart on the same directory
+                let before = sim.view_line(out, "before restart");
+                let node = sim.node.take().unwrap();
+                node.stop();
+                let node = Node::start(&dir.join("node"), consensus.clone(), &cfg);
+                sim.node = Some(node);
+                let l = sim.view_line(out, "nrestart");
+                if l != before {
+                    out.oracle_fail("node-restart-changes-view", &format!("before: {before} after: {l}"));
+                }
+                out.op("nrestart", &l);
+                restarts += 1;
+                out.count("node-restart");
+            }
+            _ => {
+                // commitment of a real transaction in block tip+1: accepted iff proposed in the window
+                let done = sim.committed_on_main();
+                let (wset, wgap) = sim.window();
+                let free: Vec<u64> = (1..=N_TX).filter(|i| !done.contains(i)).collect();
+                if free.is_empty() {
+                    continue;
+                }
+                // prefer ids at the edges: in the set, in the gap, or just left
+                let cands: Vec<u64> = free.iter().copied().filter(|i| wset.contains(i) || wgap.contains(i)).collect();
+                let id = if !cands.is_empty() && rng.chance(4, 5) { *rng.pick(&cands) } else { *rng.pick(&free) };
+                let expect_ok = wset.contains(&id);
+                let ids = gen_ids(rng);
+                let parent = sim.chain.last().unwrap().hash.clone();
+                let (blk, union) = sim.build(&parent, &ids, None, Some(id));
+                let r = sim.node.as_ref().unwrap().process(&blk);
+                let ok = r == Ok(true);
+                if ok != expect_ok {
+                    out.oracle_fail("node-commit-verdict-not-window", &format!("verify {id} at block {}: node says {:?}, window set={} gap={}", tip + 1, r, show_set(&wset), show_set(&wgap)));
+                }
+                if let Err(e) = &r {
+                    if !e.contains("Commit") && !e.contains("commit") {
+                        out.oracle_fail("node-commit-rejected-for-another-reason", &format!("verify {id}: {e}"));
+                    }
+                }
+                out.op(&format!("verify {id}"), if ok { "ok" } else { "invalid" });
+                if ok {
+                    commits_ok += 1;
+                    sim.chain.push(Blk { hash: blk.hash(), ids: union.clone(), committed: vec![id] });
+                    let op = format!("nswitch {tip} {}", show_list(&union));
+                    let l = sim.view_line(out, &op);
+                    out.op(&op, &l);
+                } else {
+                    commits_bad += 1;
+                }
+                out.count(if ok { "node-commit-accepted" } else { "node-commit-rejected" });
+            }
+        }
+    }
+    if uncles > 0 {
+        out.count("node-case-with-uncle-proposals");
+    }
+    if reorgs > 0 && restarts > 0 && commits_ok > 0 && commits_bad > 0 {
+        out.nontrivial(format!("node w={window:?} reorgs={reorgs} restarts={restarts} ok={commits_ok} bad={commits_bad} len={}", sim.chain.len()));
+    }
+    if let Some(n) = sim.node.take() {
+        n.stop();
+    }
+    drop(sim);
+    let _ = std::fs::remove_dir_all(&dir);
+}
+
+pub fn run(opts: &Opts) {
+    let mut out = Out::new(&opts.out);
+    if opts.replay.is_some() {
+        // node-level cases depend on freshly built blocks; recorded cases are replayed at table level
+        out.finish("replay (not applicable to the node stream)");
+        return;
+    }
+    let mut rng = Rng::new(opts.seed);
+    let base = scratch_dir(&opts.out, "c20");
+    let cases = if opts.thorough() { 150 } else { 14 } * opts.scale as usize;
+    for i in 0..cases {
+        node_case(&mut out, &mut rng, &base, i, 45);
+    }
+    let _ = std::fs::remove_dir_all(&base);
+    out.finish("node cases with at least one reorganisation, one restart, one accepted and one rejected commitment (distinct by window, counts and final length)");
 }
